@@ -56,6 +56,10 @@ def build(rng, n, mattype, spectrum, k, radius=None, vreal=False):
     else:
         X = rand_unitary(rng, n, cplx) * rng.uniform(0.5, 2.0, n) @ rand_unitary(rng, n, cplx)
         A = (X * lam) @ np.linalg.inv(X)
+        nrm2 = float(np.linalg.norm(A, 2))
+        if nrm2 > radius:                      # keep ||A||_2 <= radius for non-normal matrices as well
+            f = radius / nrm2
+            A, lam, vals = A * f, lam * f, vals * f
     k = max(1, min(k, nd))
     S = rng.permutation(nd)[:k]
     coef = np.zeros(n, dtype=complex)
